@@ -35,7 +35,6 @@ use core::iter::once;
 
 use anyhow::{ensure, Result};
 use hashbrown::HashMap;
-use itertools::Itertools;
 use plonky2::field::extension::{Extendable, FieldExtension};
 use plonky2::field::packed::PackedField;
 use plonky2::field::polynomial::PolynomialValues;
@@ -346,12 +345,24 @@ fn ctl_helper_zs_cols<F: Field, const N: usize>(
     challenge: GrandProductChallenge<F>,
     constraint_degree: usize,
 ) -> Vec<(usize, Vec<PolynomialValues<F>>)> {
-    let grouped_lookups = looking_tables.iter().group_by(|a| a.table);
+    // Group all the appearances of a table together, adjacent or not (in order of first appearance):
+    // the rest of the CTL logic counts one `Z` per table and cross-table lookup.
+    let mut grouped_lookups: Vec<(TableIdx, Vec<&TableWithColumns<F>>)> = Vec::new();
+    for looking_table in &looking_tables {
+        match grouped_lookups
+            .iter_mut()
+            .find(|(table, _)| *table == looking_table.table)
+        {
+            Some((_, group)) => group.push(looking_table),
+            None => grouped_lookups.push((looking_table.table, vec![looking_table])),
+        }
+    }
 
     grouped_lookups
         .into_iter()
         .map(|(table, group)| {
             let columns_filters = group
+                .into_iter()
                 .map(|table| (&table.columns[..], &table.filter))
                 .collect::<Vec<(&[Column<F>], &Filter<F>)>>();
             (
